@@ -36,6 +36,29 @@ def _arr(x):
     return np.array(x)
 
 
+def _zoom_shape(arr, buf):
+    y0, y1, x0, x1 = [int(v) for v in arr.mask.zoom_region]
+    return y0 - buf, y1 + buf, x0 - buf, x1 + buf
+
+
+def _zoom(arr, buf):
+    y0, y1, x0, x1 = _zoom_shape(arr, buf)
+    for _ in range(6):  # leave recognisable contents in the allocator's free lists (what a long-running process does anyway)
+        t = np.full((y1 - y0, x1 - x0), 7.25)
+        del t
+    return _arr(arr.zoomed_around_mask(buffer=buf).native)
+
+
+def _zoom_ref(arr, buf):
+    """Rectangle around the unmasked pixels plus the buffer, zero outside the array (definition, written with slices)."""
+    y0, y1, x0, x1 = _zoom_shape(arr, buf)
+    nat = _arr(arr.native)
+    out = np.zeros((y1 - y0, x1 - x0))
+    ys, ye, xs, xe = max(y0, 0), min(y1, nat.shape[0]), max(x0, 0), min(x1, nat.shape[1])
+    out[ys - y0:ye - y0, xs - x0:xe - x0] = nat[ys:ye, xs:xe]
+    return out
+
+
 class GraphBase:
     name = "?"
     skip_keys = ()
@@ -105,6 +128,10 @@ class GStruct(GraphBase):
         E("read vec.native.apply_mask(mask2).native", lambda c: _arr(c["vec"].native.apply_mask(mask=c["mask2"]).native))
         E("SimulatorImaging(sky).via_image_from(image with negative pixels).data", lambda c: _arr(
             aa.SimulatorImaging(exposure_time=100.0, psf=c["own_kern"], background_sky_level=9.0, add_poisson_noise_to_data=False, noise_seed=1).via_image_from(image=c["a_neg"]).data.native))
+        # windows that stick out of the array: the part outside must be zero whatever the process allocated and freed before
+        for k, buf in (("a", 1), ("a", 2), ("a_full", 1), ("a_neg", 3), ("aN", 1)):
+            E("read %s.zoomed_around_mask(buffer=%d).native" % (k, buf), (lambda k, buf: lambda c: _zoom(c[k], buf))(k, buf),
+              (lambda k, buf: lambda c: _zoom_ref(c[k], buf))(k, buf))
         # plain content reads of every structure other events hand on: an event that wrote into one of them is seen by the next read
         for k in ("gN", "aN", "vecN", "a_neg", "a_full", "gn", "vec", "own_a", "kern", "mask", "mask2"):
             E("read %s (contents)" % k, (lambda k: lambda c: _arr(c[k]))(k))
